@@ -14,6 +14,8 @@
 #[path = "../../harness/src/oracle.rs"]
 mod oracle;
 mod replay;
+#[path = "../../harness/src/stubs.rs"]
+mod stubs;
 
 use aho_corasick::{
     automaton::Automaton,
@@ -198,11 +200,11 @@ fn fidelity(
     let mut bad = vec![];
     // DFA
     let r = verif::dfa::to_raw(d);
-    let rows: Vec<&'static [u32]> =
-        r.matches.iter().map(|m| leak(m.clone())).collect();
+    let rows: Vec<Vec<aho_corasick::PatternID>> =
+        r.matches.iter().map(|m| verif::dfa::row(leak(m.clone()))).collect();
     let d2 = verif::dfa::from_parts(
         leak(r.trans.clone()),
-        leak(rows),
+        rows,
         leak(r.pattern_lens.clone()),
         r.match_kind,
         r.state_len,
@@ -469,7 +471,8 @@ fn gen(cases_path: &str, out_rs: &str, out_facts: &str) {
         writeln!(rs, "pub const STATE_LEN: usize = {};", rd.state_len).unwrap();
         writeln!(
             rs,
-            "pub fn get() -> aho_corasick::dfa::DFA {{ aho_corasick::verif::dfa::from_parts(&TRANS, &MATCHES, &PLENS, {}, {}, {}, {}, &BC, {}, {}, SPECIAL) }}",
+            "pub fn get() -> aho_corasick::dfa::DFA {{ aho_corasick::verif::dfa::from_parts(&TRANS, vec![{}], &PLENS, {}, {}, {}, {}, &BC, {}, {}, SPECIAL) }}",
+            (0..rd.matches.len()).map(|i| format!("aho_corasick::verif::dfa::row(&M{})", i)).collect::<Vec<_>>().join(", "),
             rd.match_kind, rd.state_len, rd.alphabet_len, rd.stride2, rd.min_pattern_len, rd.max_pattern_len
         )
         .unwrap();
@@ -531,6 +534,7 @@ fn gen(cases_path: &str, out_rs: &str, out_facts: &str) {
             problems.push("prefilter of the DFA differs from the noncontiguous NFA's".into());
         }
         let pfp = "aho_corasick::verif::prefilter";
+        let mut pf_packed_min = 0usize;
         let (pf_code, pf_expr): (u8, String) = match &pf_desc {
             verif::prefilter::Desc::None => (0, "None".into()),
             verif::prefilter::Desc::Start1(a) => (1, format!("Some({}::start1({}))", pfp, a)),
@@ -549,7 +553,33 @@ fn gen(cases_path: &str, out_rs: &str, out_facts: &str) {
                 writeln!(rs, "pub static NEEDLE: [u8; {}] = {};", nd.len(), arr(nd)).unwrap();
                 (7, format!("Some({}::memmem(&NEEDLE))", pfp))
             }
-            verif::prefilter::Desc::Packed => (8, "None /* packed: see packed() */".into()),
+            verif::prefilter::Desc::Packed => {
+                let pre = verif::nnfa::take_prefilter(n).unwrap();
+                let srch = verif::prefilter::packed_searcher(&pre).unwrap();
+                let raw = verif::packed::api::to_raw(srch);
+                if raw.by_id != spec.pats {
+                    problems.push("packed prefilter was built from a different pattern list than the automaton".into());
+                }
+                writeln!(rs, "pub mod pk {{").unwrap();
+                let tb = emit_packed_statics(&mut rs, &raw);
+                if raw.imp != "RabinKarp" && tb == 0 {
+                    problems.push(format!("packed prefilter implementation {} cannot be rebuilt", raw.imp));
+                }
+                // the packed searcher owns its own copies of the patterns
+                for (i, p) in raw.by_id.iter().enumerate() {
+                    writeln!(rs, "pub static Q{}: [u8; {}] = {};", i, p.len(), arr(p)).unwrap();
+                }
+                // Cut (stated in the evidence): the prefilter's packed searcher is rebuilt
+                // with its Rabin-Karp half only. For haystacks shorter than its Teddy's
+                // minimum length (which is every haystack of the automaton harnesses)
+                // `find_in` takes exactly that path in the real searcher.
+                pf_packed_min = raw.minimum_len;
+                let _ = tb;
+                let e = packed_expr(&raw, raw.by_id.len(), "Q_", 0).replace("&Q_P", "&Q");
+                writeln!(rs, "pub fn get() -> aho_corasick::packed::Searcher {{ {} }}", e).unwrap();
+                writeln!(rs, "}}").unwrap();
+                (8, format!("Some({}::packed(pk::get()))", pfp))
+            }
             verif::prefilter::Desc::Unknown(x) => {
                 problems.push(format!("unknown prefilter variant {}", x));
                 (9, "None".into())
@@ -586,7 +616,7 @@ fn gen(cases_path: &str, out_rs: &str, out_facts: &str) {
         write!(facts, "\"auto_kind\": {}, \"auto_equal\": {}, ", auto_kind, auto_equal).unwrap();
         write!(facts, "\"dfa_states\": {}, \"dfa_stride2\": {}, \"dfa_alphabet\": {}, \"dfa_match_rows\": {}, \"dfa_special\": {:?}, ", rd.state_len, rd.stride2, rd.alphabet_len, rd.matches.len(), rd.special).unwrap();
         write!(facts, "\"cnfa_special\": {:?}, \"nnfa_special\": {:?}, ", rc.special, rn.special).unwrap();
-        write!(facts, "\"prefilter\": {}, \"has_prefilter\": {}, \"pf_code\": {}, ", json_str(&rn.prefilter_debug), rn.has_prefilter, pf_code).unwrap();
+        write!(facts, "\"prefilter\": {}, \"has_prefilter\": {}, \"pf_code\": {}, \"pf_packed_min\": {}, ", json_str(&rn.prefilter_debug), rn.has_prefilter, pf_code, pf_packed_min).unwrap();
         // nnfa per-state: sparse list length, has dense row, match list length, fail chain length
         let mut nn_states = vec![];
         for (i, st) in rn.states.iter().enumerate() {
@@ -672,20 +702,9 @@ pub fn build_packed(spec: &PackedSpec) -> Option<aho_corasick::packed::Searcher>
     c.builder().extend(&spec.pats).build()
 }
 
-fn gen_packed(line: &str, rs: &mut String, facts: &mut String) {
-    let spec = parse_packed(line);
-    let srch = build_packed(&spec).unwrap_or_else(|| panic!("packed case {}: no searcher built", spec.name));
-    let raw = verif::packed::api::to_raw(&srch);
-    let m = format!("p_{}", spec.name);
-    writeln!(rs, "pub mod {} {{", m).unwrap();
-    for (i, p) in spec.pats.iter().enumerate() {
-        writeln!(rs, "pub static P{}: [u8; {}] = {};", i, p.len(), arr(p)).unwrap();
-    }
-    write!(rs, "pub static PATS: [&[u8]; {}] = [", spec.pats.len()).unwrap();
-    for i in 0..spec.pats.len() {
-        write!(rs, "&P{}, ", i).unwrap();
-    }
-    writeln!(rs, "];").unwrap();
+/// Emit the statics of a packed searcher dump; returns the Teddy fingerprint
+/// length to rebuild with (0 = Rabin-Karp only).
+fn emit_packed_statics(rs: &mut String, raw: &verif::packed::api::RawSearcher) -> usize {
     writeln!(rs, "pub static ORDER: [u32; {}] = {};", raw.order.len(), arr(&raw.order)).unwrap();
     assert!(raw.rk_buckets.len() == 64, "Rabin-Karp bucket count changed");
     for (i, b) in raw.rk_buckets.iter().enumerate() {
@@ -714,6 +733,35 @@ fn gen_packed(line: &str, rs: &mut String, facts: &mut String) {
         write!(rs, "({}, {}),", arr(lo), arr(hi)).unwrap();
     }
     writeln!(rs, "];").unwrap();
+    teddy_bytes
+}
+
+/// Expression that rebuilds the dumped searcher from the emitted statics
+/// (patterns P0.. must be in scope under `pp`).
+fn packed_expr(raw: &verif::packed::api::RawSearcher, npats: usize, pp: &str, teddy_bytes: usize) -> String {
+    format!(
+        "aho_corasick::verif::packed::api::from_parts({}, vec![{}], &ORDER, {}, &RKB, {}, {}, {}, &TBS, &TMASKS, {})",
+        raw.kind,
+        (0..npats).map(|i| format!("aho_corasick::verif::packed::pattern::pat(&{}P{})", pp, i)).collect::<Vec<_>>().join(", "),
+        raw.patterns_minimum_len, raw.rk_hash_len, raw.rk_hash_2pow, teddy_bytes, raw.minimum_len
+    )
+}
+
+fn gen_packed(line: &str, rs: &mut String, facts: &mut String) {
+    let spec = parse_packed(line);
+    let srch = build_packed(&spec).unwrap_or_else(|| panic!("packed case {}: no searcher built", spec.name));
+    let raw = verif::packed::api::to_raw(&srch);
+    let m = format!("p_{}", spec.name);
+    writeln!(rs, "pub mod {} {{", m).unwrap();
+    for (i, p) in spec.pats.iter().enumerate() {
+        writeln!(rs, "pub static P{}: [u8; {}] = {};", i, p.len(), arr(p)).unwrap();
+    }
+    write!(rs, "pub static PATS: [&[u8]; {}] = [", spec.pats.len()).unwrap();
+    for i in 0..spec.pats.len() {
+        write!(rs, "&P{}, ", i).unwrap();
+    }
+    writeln!(rs, "];").unwrap();
+    let teddy_bytes = emit_packed_statics(rs, &raw);
     writeln!(rs, "pub struct C;").unwrap();
     writeln!(rs, "impl crate::PackedCase for C {{").unwrap();
     writeln!(rs, "const NAME: &'static str = {:?};", spec.name).unwrap();
@@ -721,12 +769,7 @@ fn gen_packed(line: &str, rs: &mut String, facts: &mut String) {
     writeln!(rs, "const NPATS: usize = {};", spec.pats.len()).unwrap();
     writeln!(rs, "const MINIMUM_LEN: usize = {};", raw.minimum_len).unwrap();
     writeln!(rs, "fn pats() -> &'static [&'static [u8]] {{ &PATS }}").unwrap();
-    writeln!(
-        rs,
-        "fn searcher() -> aho_corasick::packed::Searcher {{ aho_corasick::verif::packed::api::from_parts({}, &PATS, &ORDER, {}, &RKB, {}, {}, {}, &TBS, &TMASKS, {}) }}",
-        raw.kind, raw.patterns_minimum_len, raw.rk_hash_len, raw.rk_hash_2pow, teddy_bytes, raw.minimum_len
-    )
-    .unwrap();
+    writeln!(rs, "fn searcher() -> aho_corasick::packed::Searcher {{ {} }}", packed_expr(&raw, spec.pats.len(), "", teddy_bytes)).unwrap();
     writeln!(rs, "}}").unwrap();
     writeln!(rs, "}}").unwrap();
     // fidelity: the rebuilt searcher must dump identically
@@ -742,12 +785,72 @@ fn gen_packed(line: &str, rs: &mut String, facts: &mut String) {
     facts.push('}');
 }
 
+/// Differential validation of the environment stubs against the real
+/// functions on pseudo-random inputs (not part of any claim; DESIGN 1.7).
+fn stubcheck() -> i32 {
+    let mut x: u64 = 0x9E3779B97F4A7C15;
+    let mut rnd = move || {
+        x ^= x << 13;
+        x ^= x >> 7;
+        x ^= x << 17;
+        x
+    };
+    let mut bad = 0;
+    for _ in 0..100_000 {
+        let len = (rnd() % 24) as usize;
+        // small alphabet so that needles are actually found
+        let hay: Vec<u8> = (0..len).map(|_| (rnd() % 5) as u8 + b'a').collect();
+        let (a, b, c) = ((rnd() % 6) as u8 + b'a', (rnd() % 6) as u8 + b'a', (rnd() % 6) as u8 + b'a');
+        if stubs::memchr1(a, &hay) != memchr::memchr(a, &hay) {
+            bad += 1;
+        }
+        if stubs::memchr2(a, b, &hay) != memchr::memchr2(a, b, &hay) {
+            bad += 1;
+        }
+        if stubs::memchr3(a, b, c, &hay) != memchr::memchr3(a, b, c, &hay) {
+            bad += 1;
+        }
+        let nlen = (rnd() % 4) as usize;
+        let needle: Vec<u8> = (0..nlen).map(|_| (rnd() % 3) as u8 + b'a').collect();
+        let f = memchr::memmem::Finder::new(&needle);
+        if stubs::memmem_find(&f, &hay) != f.find(&hay) {
+            bad += 1;
+        }
+        #[cfg(target_arch = "x86_64")]
+        if std::is_x86_feature_detected!("ssse3") {
+            let mut va = [0u8; 16];
+            let mut vb = [0u8; 16];
+            for i in 0..16 {
+                va[i] = rnd() as u8;
+                vb[i] = rnd() as u8;
+            }
+            unsafe {
+                use core::arch::x86_64::*;
+                let ra: [u8; 16] = core::mem::transmute(real_pshufb(core::mem::transmute(va), core::mem::transmute(vb)));
+                let rb: [u8; 16] = core::mem::transmute(stubs::pshufb_model(core::mem::transmute::<[u8; 16], __m128i>(va), core::mem::transmute::<[u8; 16], __m128i>(vb)));
+                if ra != rb {
+                    bad += 1;
+                }
+            }
+        }
+    }
+    println!("stub validation: 100000 rounds, {} disagreements", bad);
+    (bad > 0) as i32
+}
+
+#[cfg(target_arch = "x86_64")]
+#[target_feature(enable = "ssse3")]
+unsafe fn real_pshufb(a: core::arch::x86_64::__m128i, b: core::arch::x86_64::__m128i) -> core::arch::x86_64::__m128i {
+    core::arch::x86_64::_mm_shuffle_epi8(a, b)
+}
+
 fn main() {
     let args: Vec<String> = std::env::args().collect();
     match args.get(1).map(|s| s.as_str()) {
         Some("gen") => gen(&args[2], &args[3], &args[4]),
         Some("replay") => std::process::exit(replay::replay(&args[2])),
         Some("selftest") => std::process::exit(replay::selftest(&args[2])),
+        Some("stubcheck") => std::process::exit(stubcheck()),
         _ => {
             eprintln!("usage: vdump gen|replay|selftest ...");
             std::process::exit(2);
